@@ -159,7 +159,11 @@ def make_rmb_conc(n, via):
         info = {"lines": lines, "outcome": out.describe()}
         if out.kind != "ok":
             return ctx.known(PID, {"part": "rmb-conc"}, {"kind": out.kind, "n": n, "via": via}), info
-        img = image(out.program)
+        try:
+            img = image(out.program)
+        except Exception as e:  # noqa: BLE001 - accepted, but the image cannot be generated
+            info["outcome"] = "accepted, then %s in get_binary_array" % type(e).__name__
+            return ctx.known(PID, {"part": "rmb-conc"}, {"kind": "internal", "n": n, "via": via}), info
         ok = img == [0] * n + [0x12]
         info["image_len"] = len(img)
         if ok:
